@@ -641,7 +641,7 @@ func (e *Engine) convert(st *State, from, to types.Type, v Value) Value {
 			out := &StrV{}
 			for i := 0; i < n; i++ {
 				idx := ts.App(BV(64), "bvadd", sl.Off, ts.BVInt(64, int64(i)))
-				out.B = append(out.B, ts.App(BV(8), "select", hv.Arr, idx))
+				out.B = append(out.B, e.symSelect(hv, idx))
 			}
 			return out
 		}
@@ -751,7 +751,7 @@ func (e *Engine) step(st *State) bool {
 		switch p := e.get(st, x.Addr).(type) {
 		case *SymElemPtr:
 			sb := st.heap[p.Obj.ID].(*SymBytesV)
-			st.heap[p.Obj.ID] = &SymBytesV{Arr: ts.App(ArrSort, "store", sb.Arr, p.Idx, e.get(st, x.Val).(*Term)), Len: sb.Len}
+			st.heap[p.Obj.ID] = e.symStore(sb, p.Idx, e.get(st, x.Val).(*Term))
 		case *PtrV:
 			if p.Obj == nil {
 				e.violation(st, "PANIC", "nil pointer dereference (store) at "+e.pos(x.Pos()))
@@ -768,7 +768,7 @@ func (e *Engine) step(st *State) bool {
 			switch p := v.(type) {
 			case *SymElemPtr:
 				sb := st.heap[p.Obj.ID].(*SymBytesV)
-				set(x, ts.App(BV(8), "select", sb.Arr, p.Idx))
+				set(x, e.symSelect(sb, p.Idx))
 			case *PtrV:
 				if p.Obj == nil {
 					e.violation(st, "PANIC", "nil pointer dereference at "+e.pos(x.Pos()))
@@ -1651,6 +1651,15 @@ func (e *Engine) copySym(st *State, x *ssa.Call, dst, src *SliceV) bool {
 		return true
 	}
 	nT := ts.Ite(ts.App(BoolSort, "bvult", src.Len, dst.Len), src.Len, dst.Len)
+	if dsb, ok := st.heap[dst.Obj.ID].(*SymBytesV); ok {
+		if ssb, ok := st.heap[src.Obj.ID].(*SymBytesV); ok {
+			st.heap[dst.Obj.ID] = e.symCopy(dsb, dst.Off, ssb, src.Off, nT)
+			if x != nil {
+				st.fr.env[x] = nT
+			}
+			return true
+		}
+	}
 	n := e.concretize(st, nT, "copy length")
 	if n > 64 {
 		e.abort("UNWINDING: copy of %d symbolic bytes", n)
@@ -1660,14 +1669,14 @@ func (e *Engine) copySym(st *State, x *ssa.Call, dst, src *SliceV) bool {
 		si := ts.App(BV(64), "bvadd", src.Off, ts.BVInt(64, int64(i)))
 		switch sv := st.heap[src.Obj.ID].(type) {
 		case *SymBytesV:
-			b = ts.App(BV(8), "select", sv.Arr, si)
+			b = e.symSelect(sv, si)
 		case *ArrayV:
 			b = sv.E[e.concretize(st, si, "copy src index")].(*Term)
 		}
 		di := ts.App(BV(64), "bvadd", dst.Off, ts.BVInt(64, int64(i)))
 		switch dv := st.heap[dst.Obj.ID].(type) {
 		case *SymBytesV:
-			st.heap[dst.Obj.ID] = &SymBytesV{Arr: ts.App(ArrSort, "store", dv.Arr, di, b), Len: dv.Len}
+			st.heap[dst.Obj.ID] = e.symStore(dv, di, b)
 		case *ArrayV:
 			na := &ArrayV{E: append([]Value(nil), dv.E...)}
 			na.E[e.concretize(st, di, "copy dst index")] = b
@@ -1683,7 +1692,42 @@ func (e *Engine) copySym(st *State, x *ssa.Call, dst, src *SliceV) bool {
 // Alloc records an allocation whose size comes from symbolic data (checked by harness monitors).
 func (e *Engine) Alloc(st *State, size *Term, where string) {
 	st.trace = append(st.trace, "alloc@"+where)
-	e.lastAlloc = size
+	if st.maxAlloc == nil {
+		st.maxAlloc = size
+	} else {
+		st.maxAlloc = e.ts.Ite(e.ts.App(BoolSort, "bvsgt", size, st.maxAlloc), size, st.maxAlloc)
+	}
+}
+
+// symSelect reads byte idx of a symbolic byte array through its copy/store overlays.
+func (e *Engine) symSelect(sb *SymBytesV, idx *Term) *Term {
+	ts := e.ts
+	val := ts.App(BV(8), "select", sb.Arr, idx)
+	for _, o := range sb.Over {
+		in := ts.And(ts.App(BoolSort, "bvule", o.Off, idx), ts.App(BoolSort, "bvult", ts.App(BV(64), "bvsub", idx, o.Off), o.N))
+		var v *Term
+		if o.Src == nil {
+			v = o.Val
+		} else {
+			v = e.symSelect(o.Src, ts.App(BV(64), "bvadd", o.SrcOff, ts.App(BV(64), "bvsub", idx, o.Off)))
+		}
+		val = ts.Ite(in, v, val)
+	}
+	return val
+}
+
+func (e *Engine) symStore(sb *SymBytesV, idx, v *Term) *SymBytesV {
+	if len(sb.Over) == 0 {
+		return &SymBytesV{Arr: e.ts.App(ArrSort, "store", sb.Arr, idx, v), Len: sb.Len}
+	}
+	over := append(append([]overlayRec(nil), sb.Over...), overlayRec{Off: idx, N: e.ts.BVInt(64, 1), Val: v})
+	return &SymBytesV{Arr: sb.Arr, Len: sb.Len, Over: over}
+}
+
+// symCopy copies n (symbolic) bytes from src[srcOff:] into dst[dstOff:].
+func (e *Engine) symCopy(dst *SymBytesV, dstOff *Term, src *SymBytesV, srcOff, n *Term) *SymBytesV {
+	over := append(append([]overlayRec(nil), dst.Over...), overlayRec{Off: dstOff, N: n, Src: src, SrcOff: srcOff})
+	return &SymBytesV{Arr: dst.Arr, Len: dst.Len, Over: over}
 }
 
 // RunHarness explores all paths of fn.
